@@ -1,4 +1,5 @@
 import RosuModel.Lemmas.ManiaPatternTotal
+import RosuModel.Lemmas.ManiaPatternSafeLoop
 
 /-!
 # C05 (mania pattern generators) — which checked operations can fail, and when they cannot
@@ -94,6 +95,65 @@ theorem reverse_stair_from_special_column_overflows :
 
 /-- a spinner after a full 4K pattern: stacking is allowed, no `assert!` is evaluated -/
 example : failOf (endGenerate exactArith ⟨4, 0, ⟨[], 0b1111⟩, true, false, 100⟩ (Osu.new 5)) = none := by
+  decide +kernel
+
+
+/-! ## second round: hit-object and path generators, the whole loop
+
+The float-gated note-count caps enter as laws of the arithmetic (`ProbLaw`: a draw is never
+`>= 1.0 - 0.0`, and `1.0 < 0.0` is false — so a literal `0.0` probability never fires and `clamp`
+keeps it); they hold for the exact rational instance by theorem and are exercised for the IEEE
+instance by every MPH / MPP / MPT line whose branch has a zero probability. -/
+
+/-- the laws hold for the exact instance (probabilities rational, `next_double = n / 2³¹`) -/
+theorem exact_arithmetic_satisfies_prob_laws : ProbLaw ratArith := ratArith_probLaw
+
+/-- **(b) hit-object generator.**  For every PRNG state, flag combination, hit sound, x, previous
+pattern (no invariant needed) and key count 1–16, `HitObjectPatternGenerator::generate()` completes
+or exhausts the fuel of a random retry loop — every `assert!(has_valid_column)` precondition follows
+from the callers' caps (`min(total - random_start - prev.column_with_objs(), n)`, the per-key-count
+probability caps, `column_limit`) — except in the one 7K+1 situation excluded by hypothesis. -/
+theorem hit_generator_never_fails {A : PArith F} (hP : ProbLaw A) (g : HitIn F) (h1 : 1 ≤ g.total)
+    (h16 : g.total ≤ 16) (stair : Nat) (s : Osu)
+    (hspecial : g.total = 8 → g.prev.notes.length = 1 → has g.ct REVERSE_STAIR = true →
+      hitLastColumn g ≠ 0) :
+    OkOrFuel (hitGenerate A g stair s) :=
+  hitGenerate_safe hP g h1 h16 stair s hspecial
+
+/-- **(b) path generator**, under `PathWf`: span count ≥ 1, `0 ≤ segment_duration`,
+`segment_duration·span_count ≤ end − start` (all established by `new`, `C19b.path_new_establishes…`),
+the `i32` headroom `start + segment·(span+1) ≤ i32::MAX`, previous pattern inside `[0,total)`, and for
+7K+1 a free column among 1–7. -/
+theorem path_generator_never_fails {A : PArith F} (hP : ProbLaw A) (g : PathIn F) (h1 : 1 ≤ g.total)
+    (h16 : g.total ≤ 16) (hw : PathWf g) (s : Osu) : OkOrFuel (pathGenerate A g s) :=
+  pathGenerate_safe hP g h1 h16 hw s
+
+/-- **(b) one iteration of `convert`'s loop** (7K+1 under `Free8`), and the loop invariant
+"previous pattern inside `[0,total)`" is re-established. -/
+theorem convert_step_never_fails {A : PArith F} (hP : ProbLaw A) (total : Nat) (h1 : 1 ≤ total)
+    (h16 : total ≤ 16) (cd : F) (fuel : Nat) (st : ConvSt) (o : ObjIn F) (hprev : PatOk total st.prev)
+    (ho : ObjWf o) (h8 : total = 8 → Free8 st.prev) :
+    OkOrFuel (convertStep A total cd fuel st o) ∧
+    ∀ r, convertStep A total cd fuel st o = .ok r → PatOk total r.2.prev :=
+  convertStep_safe hP total h1 h16 cd fuel st o hprev ho h8
+
+/-- **(b) the whole conversion, every key count but 8**: from the initial state, for every object
+list whose sliders have well-formed `i32` times, no checked operation fails. -/
+theorem convert_never_fails_except_7K1 {A : PArith F} (hP : ProbLaw A) (total : Nat) (h1 : 1 ≤ total)
+    (h16 : total ≤ 16) (hne8 : total ≠ 8) (cd : F) (fuel : Nat) (seed : Int) (os : List (ObjIn F))
+    (hwf : ∀ o ∈ os, ObjWf o) :
+    OkOrFuel (convertLoop A total cd fuel (ConvSt.init seed) os) :=
+  convertLoop_safe_not8 hP total h1 h16 hne8 cd fuel os _ (PatOk.empty total) hwf
+
+/-- The `i32` headroom hypothesis is needed — FINDING (debug / overflow-checked builds): a slider of
+two spans at 2147483397 ms with end time 2147483597 and segment duration 100 takes the
+`generate_random_notes` branch, whose third `start_time += segment_duration` exceeds `i32::MAX`.
+Replayed on the real converter (`harness/src/bin/mania_replay.rs`, map in docs/delivery-MANIA.md):
+release wraps silently (the value is unused), the `checked` profile panics at path_object.rs:244. -/
+theorem slider_time_overflow_witness :
+    failOf (pathGenerate exactArith
+      ⟨4, 256, 0, 2 ^ LOW_PROBABILITY, Pat.empty, 0, 2, 2147483397, 2147483597, 100, [0, 0, 0], 100⟩
+      (Osu.new 0)) = some .arith := by
   decide +kernel
 
 end Rosu.C05d
